@@ -9,7 +9,11 @@ HOOK_COMMITS_FILE = "/verif/HOOK_COMMITS.txt"
 
 def main():
     checks, na = [], []
+    ready = [l.strip() for l in open("/verif/wv/ready.txt") if l.strip() and not l.startswith("#")]
     for pid in ALL:
+        if pid not in ready:
+            na.append({"property_id": pid, "reason": "check not finished yet in this round (planned, see DESIGN.md section 5); no claim is made"})
+            continue
         try:
             mod = importlib.import_module(f"wv.props.{pid.lower()}")
         except ModuleNotFoundError:
